@@ -228,6 +228,10 @@ def faceMargin [Zero K] [One K] [Sub K] [Neg K] [LT K] [DecidableLT K] (s : V3 K
   minK (minK (minK (absK s.x) (absK (1 - s.x))) (minK (absK s.y) (absK (1 - s.y))))
     (minK (absK s.z) (absK (1 - s.z)))
 
+/-- `tools.vect_angle` for one pair of vectors: the cosine handed to `np.arccos` — each vector divided by (what
+    `np.linalg.norm` returns for) its length `n1`, `n2`, then the inner product. -/
+def angleCos [Add K] [Mul K] [Div K] (u v : V3 K) (n1 n2 : K) : K := V3.dot (vdiv u n1) (vdiv v n2)
+
 /-! ### the same cell in another unit of length (every vector and the origin times `s`) -/
 
 section units
